@@ -54,7 +54,7 @@ Section ChunkTop.
 
   Definition chunk_inputs_ok (T : nat) (md : mode) (x : list (list A)) (slices : list (Z * Z))
              (lens : option (list nat)) : Prop :=
-    x <> [] /\ T <> 0 /\
+    x <> [] /\
     match lens with Some l => length l = length x | None => True end /\
     forall n, n < length x ->
       let r := crow_at T x slices lens n in
@@ -73,7 +73,7 @@ Section ChunkTop.
         = chunk1 md fill (firstn (c_len r) (c_cells r)) (c_start r) (c_end r) /\
         length (nth n out []) = Tp /\ nth n olens 0 <= Tp.
   Proof.
-    intros (Hne & HT & Hlens & Hrows).
+    intros (Hne & Hlens & Hrows).
     set (rows := zip_crows T x slices lens).
     assert (Hrne : rows <> []).
     { intros E. apply (f_equal (@length _)) in E. unfold rows in E. rewrite zip_crows_length in E.
@@ -84,8 +84,8 @@ Section ChunkTop.
     exists (c_Tp rows), (map (c_out fill md rows) rows), (map c_chunk rows).
     split; [|split; [|split]].
     - unfold chunk_by_slices.
-      destruct (Nat.eqb_spec (length x * T) 0) as [E|_].
-      { apply Nat.eq_mul_0 in E as [E|E]; [|contradiction]. apply length_zero_iff_nil in E. contradiction. }
+      destruct (Nat.eqb_spec (length x) 0) as [E|_].
+      { apply length_zero_iff_nil in E. contradiction. }
       assert (E : chunk_rows T d fill md rows = Ok (map (c_out fill md rows) rows, map c_chunk rows))
         by (apply chunk_rows_eq; assumption).
       destruct lens as [l|]; [|exact E]. rewrite Hlens, Nat.eqb_refl. exact E.
@@ -98,7 +98,7 @@ Section ChunkTop.
       rewrite (nth_map_lt (c_out fill md rows) rows n (crow_at T x slices lens 0)) by assumption.
       replace (nth n rows (crow_at T x slices lens 0)) with (crow_at T x slices lens n)
         by (symmetry; apply zip_crows_nth; assumption).
-      destruct (c_out_correct fill md rows T Hrne HT Hok _ Hin) as (H1 & H2 & H3).
+      destruct (c_out_correct fill md rows T Hrne Hok _ Hin) as (H1 & H2 & H3).
       split; [reflexivity|]. split; [exact H1|]. split; assumption.
   Qed.
 
@@ -121,7 +121,7 @@ Section ChunkTop.
 
   (* an illegal row makes the call raise (the batch being non-degenerate) *)
   Theorem chunk_by_slices_illegal T d fill md (x : list (list A)) slices lens n :
-    T <> 0 -> match lens with Some l => length l = length x | None => True end ->
+    match lens with Some l => length l = length x | None => True end ->
     n < length x ->
     (let r := crow_at T x slices lens n in
      legalb md (chunk_l (c_start r) (c_end r)) (chunk_r (c_len r) (c_start r) (c_end r)) (c_len r) = false) ->
@@ -129,12 +129,11 @@ Section ChunkTop.
     (md = Replicate -> chunk_by_slices T d fill md x slices lens = ErrRuntime) /\
     md <> Constant.
   Proof.
-    intros HT Hlens Hn Hleg. cbv zeta in Hleg.
+    intros Hlens Hn Hleg. cbv zeta in Hleg.
     pose proof (zip_crows_row_in T x slices lens n Hn) as Hin.
     rewrite <- c_lp_chunk_l, <- c_rp_chunk_r in Hleg.
     pose proof (padding_buffers_illegal c_cells c_len c_lp c_rp T d md _ _ Hin Hleg) as H.
-    assert (Hnz : (length x * T =? 0) = false).
-    { apply Nat.eqb_neq. intros E0. apply Nat.eq_mul_0 in E0 as [E0|E0]; lia. }
+    assert (Hnz : (length x =? 0) = false) by (apply Nat.eqb_neq; lia).
     unfold chunk_by_slices, chunk_rows. rewrite zip_crows_length, Hnz.
     assert (Hl : match lens with Some l => (length l =? length x) = true | None => True end).
     { destruct lens; [now rewrite Hlens, Nat.eqb_refl|exact I]. }
@@ -144,19 +143,6 @@ Section ChunkTop.
     - intros ->. exact H.
   Qed.
 End ChunkTop.
-
-(* the early return of chunk_by_slices: for T = 0 (N > 0) every reported length is 0, whatever the
-   slice - the length clause of the property is FALSE there *)
-Lemma chunk_T0_refuted :
-  exists (x : list (list nat)) slices lens out olens,
-    x <> [] /\ (forall n, n < length x -> length (nth n x []) = 0 /\ nth n lens 0 <= 0) /\
-    chunk_by_slices 0 0 7 Constant x slices (Some lens) = Ok (out, olens) /\
-    nth 0 olens 0 <> chunk_len1 (fst (nth 0 slices (0, 0)%Z)) (snd (nth 0 slices (0, 0)%Z)).
-Proof.
-  exists [[]], [(0, 3)%Z], [0], [[]], [0]. split; [discriminate|]. split.
-  - intros [|n] H; cbn in *; [lia|lia].
-  - split; [reflexivity|]. vm_compute. discriminate.
-Qed.
 
 (* ====================== pad_masked_sequence ====================== *)
 Section MaskedTop.
